@@ -109,7 +109,7 @@ def judge(module, recs, wd, tag, shards=8, timeout=3000, weight=None):
     def one(i):
         a, b = os.path.join(wd, "tv-%s-%d.in" % (tag, i)), os.path.join(wd, "tv-%s-%d.out" % (tag, i))
         write_ndjson(a, parts[i])
-        r = tlc(module, wd=wd, env={"VERIF_IN": a, "VERIF_OUT": b}, timeout=timeout, xmx="6g")
+        r = tlc(module, wd=wd, env={"VERIF_IN": a, "VERIF_OUT": b}, timeout=timeout, xmx="3g", gc="serial")
         return read_ndjson(b), r["wall"]
     with cf.ThreadPoolExecutor(shards) as ex:
         outs = list(ex.map(one, range(shards)))
